@@ -226,6 +226,11 @@ def medium_items(ctx):
                              ("zstd auto min=200000 max=10485760", "cfg comp=2 manual=0 max=10485760 min=200000")):
             for sg in ("whole", "32768"):
                 items.append(("%s/%d %s seg=%s" % (kind, len(content), cname, sg), cline, content, segmentation(len(content), sg), "32768"))
+    # a minimum set on its own (no maximum given) above the default maximum of 10 MiB, and a chunk longer than that: either the
+    # option is refused or the writer copes
+    big = gen("zeros", 11000000, ctx.seed)
+    for cname, cline in (("none manual min=10485761 alone", "cfg comp=0 manual=1 min=10485761"), ("none auto min=10485761 alone", "cfg comp=0 manual=0 min=10485761")):
+        items.append(("zeros/%d %s seg=whole" % (len(big), cname), cline, big, segmentation(len(big), "whole"), "32768"))
     # sizes beyond 32 bits: the options take a ssize_t.  Either the value is refused or it means what it says
     content = gen("rand", 20000, ctx.seed)
     for cname, cline in (("none manual min=500 max=1000 then max=2^32+100", "cfg comp=0 manual=1 max=1000 min=500 max2=4294967396"),
